@@ -264,6 +264,46 @@ def hunt(ctx, make_test, seed, max_examples, shrink=True, max_root_causes=6):
     return found
 
 
+def tree_frame(exc):
+    """Innermost traceback frame that lies in the tree under test, or None."""
+    import traceback as tb
+
+    frames = tb.extract_tb(exc.__traceback__)
+    if not frames:
+        return None
+    last = frames[-1]
+    if os.path.abspath(last.filename).startswith(env.SRC + os.sep):
+        return "%s:%s" % (os.path.relpath(last.filename, env.SRC), last.name)
+    return None
+
+
+def guarded(ctx, fn, case, allowed=()):
+    """Run an oracle on a case.  An exception raised *inside the tree under test* by an operation the
+    property says must succeed is a violation (shrinkable); an exception raised by the harness itself
+    propagates and ends the run as a harness error."""
+    try:
+        return fn(case)
+    except Viol:
+        raise
+    except allowed:
+        ctx.cls("allowed_exception")
+        return None
+    except Exception as e:
+        where = tree_frame(e)
+        if where is None:
+            raise
+        ctx.fail("unexpected_exception:%s@%s" % (type(e).__name__, where), case, "valid operation raised %s: %s" % (type(e).__name__, str(e)[:300]))
+
+
+def replay_guarded(ctx, fn, case):
+    """Replay helper: list of failure messages for one case."""
+    try:
+        guarded(ctx, fn, case)
+    except Viol as v:
+        return ["%s: %s" % (v.key, v.msg)]
+    return ["%s: %s" % (k, v["msg"]) for k, v in ctx.violations.items()]
+
+
 # ---------------------------------------------------------------------------------------------
 # numeric helpers shared by the oracles
 
